@@ -98,12 +98,8 @@ def Sig.toWErr : Sig → WErr
   | .network => .network
   | .cancelCmd => .cancelCmd
 
-/-- inProgressResponseStatus -/
-structure Resp where
-  id : Id
-  peer : Peer
-  cfg : ReqCfg
-  state : RState
+/-- the fields of inProgressResponseStatus that only the signal plumbing and the executor touch -/
+structure Aux where
   updates : List UP := []
   sigPause : Bool := false
   sigUpdate : Bool := false
@@ -114,6 +110,15 @@ structure Resp where
   ended : Bool := false         -- a load failed (SkipMe): the chain has no further links
   hooked : Nat := 0             -- block hooks run so far
   missing : Bool := false       -- link tracker: a block was missing
+deriving DecidableEq, Repr
+
+/-- inProgressResponseStatus -/
+structure Resp where
+  id : Id
+  peer : Peer
+  cfg : ReqCfg
+  state : RState
+  aux : Aux := {}
 deriving DecidableEq, Repr
 
 -- ------------------------------------------------------------------ transactions and builders
@@ -304,18 +309,31 @@ structure State where
   waiting : List Waiting := []        -- allocator FIFO (ungranted reservations)
   prot : List (Peer × Id) := []
   events : List Event := []           -- ghost: everything observable, in order
-deriving Repr
+  seenIds : List Id := []             -- ghost: ids of all `new` requests received so far
+  handled : Nat := 0                  -- ghost: number of mailbox messages handled so far
+deriving Repr, DecidableEq
 
 -- ------------------------------------------------------------------ small helpers
 def lookup (s : State) (id : Id) : Option Resp := s.table.find? (·.id == id)
 
-def setResp (s : State) (r : Resp) : State :=
-  { s with table := if s.table.any (·.id == r.id) then s.table.map (fun x => if x.id == r.id then r else x)
-                    else s.table ++ [r] }
+/-- change the executor-side fields of the entry `id` (no effect if there is none) -/
+def modAux (s : State) (id : Id) (f : Aux → Aux) : State :=
+  { s with table := s.table.map fun x => if x.id == id then { x with aux := f x.aux } else x }
+
+/-- change the request state of the entry `id` (no effect if there is none) -/
+def setState (s : State) (id : Id) (st : RState) : State :=
+  { s with table := s.table.map fun x => if x.id == id then { x with state := st } else x }
+
+/-- `rm.inProgressResponses[id] = response` -/
+def insertResp (s : State) (r : Resp) : State :=
+  { s with table := s.table.filter (·.id != r.id) ++ [r] }
 
 def delResp (s : State) (id : Id) : State := { s with table := s.table.filter (·.id != id) }
 
 def emit (s : State) (e : Event) : State := { s with events := s.events ++ [e] }
+
+/-- `rm.send`: append a message to the manager's mailbox -/
+def sendMsg (s : State) (m : Msg) : State := { s with mailbox := s.mailbox ++ [m] }
 
 def getQ (s : State) (p : Peer) : PeerQ :=
   match s.queues.find? (·.peer == p) with
@@ -453,17 +471,22 @@ def prepareOps (h : Hook) : List TxOp :=
 /-- second half of newRequest (after prepareQuery's transaction) -/
 def newReqFinish (s : State) (p : Peer) (id : Id) (cfg : ReqCfg) : State :=
   match cfg.hook.kind with
-  | .error | .reject => setResp s { id, peer := p, cfg, state := .completing }
-  | .pause => setResp s { id, peer := p, cfg, state := .paused }
-  | .accept => setResp (pushTask s p id cfg.pri) { id, peer := p, cfg, state := .queued }
+  | .error | .reject => insertResp s { id, peer := p, cfg, state := .completing }
+  | .pause => insertResp s { id, peer := p, cfg, state := .paused }
+  | .accept => insertResp (pushTask s p id cfg.pri) { id, peer := p, cfg, state := .queued }
 
 def parkMgr (s : State) (cont : MgrCont) (p : Peer) (id : Id) (ops : List TxOp) : State :=
   { s with park := some { cont, peer := p, id, ops, granted := false } }
 
+/-- `connManager.Protect(p, tag)` (a set of tags: protecting twice is idempotent) -/
+def protect (s : State) (p : Peer) (id : Id) : State :=
+  emit { s with prot := if s.prot.contains (p, id) then s.prot else s.prot ++ [(p, id)] } (.protect p id)
+
+/-- `responseAssembler.NewStream`: a fresh (open) response stream for this id -/
+def openStream (s : State) (id : Id) : State := { s with closed := s.closed.filter (· != id) }
+
 def newRequest (s : State) (p : Peer) (id : Id) (cfg : ReqCfg) : State :=
-  let s1 := emit { s with prot := if s.prot.contains (p, id) then s.prot else s.prot ++ [(p, id)] } (.protect p id)
-  -- a new response stream for this id
-  let s2 := { s1 with closed := s1.closed.filter (· != id) }
+  let s2 := openStream (protect s p id) id
   let ops := prepareOps cfg.hook
   let (s3, ok) := execTx s2 .mgr p id ops
   if ok then newReqFinish s3 p id cfg else parkMgr s3 (.newReq p id cfg) p id ops
@@ -480,7 +503,7 @@ def unpauseRequest (s : State) (id : Id) (ext : Bool) : State × ApiRes × Bool 
   | some r =>
     if r.state != .paused then (s, .err, false)
     else
-      let s1 := setResp s { r with state := .queued }
+      let s1 := setState s id .queued
       if ext then
         let (s2, ok) := execTx s1 .mgr r.peer id [.ext]
         if ok then (unpauseFinish s2 id, .ok, false) else (parkMgr s2 (.unpause id ext) r.peer id [.ext], .ok, true)
@@ -490,7 +513,7 @@ def procUpdateFinish (s : State) (id : Id) (plan : UP) : State :=
   match lookup s id with
   | none => s
   | some r =>
-    if plan == .err then setResp s { r with state := .completing }
+    if plan == .err then setState s r.id .completing
     else if plan == .unpause || plan == .unpauseExt then (unpauseRequest s id false).1
     else s
 
@@ -500,7 +523,7 @@ def processUpdate (s : State) (id : Id) (plan : UP) : State :=
   | none => s
   | some r =>
     if r.state == .completing then s
-    else if r.state != .paused then setResp s { r with updates := r.updates ++ [plan], sigUpdate := true }
+    else if r.state != .paused then modAux s id fun a => { a with updates := a.updates ++ [plan], sigUpdate := true }
     else
       let ops := (if plan == .ext || plan == .unpauseExt then [TxOp.ext] else []) ++
                  (if plan == .err then [TxOp.status stFailedUnknown] else [])
@@ -519,12 +542,12 @@ def abortRequest (s : State) (id : Id) (err : Sig) : State × ApiRes :=
       | .ctxCancel => (emit (terminate s1 id) (.canc id), .ok)
       | .network => (terminate s1 id, .ok)
       | .cancelCmd =>
-        let s2 := setResp s1 { r with state := .completing }
+        let s2 := setState s1 id .completing
         ((execTx s2 .mgr r.peer id [.status stCancelled]).1, .ok)
     else
-      let r1 := if err == .network then { r with netErr := true } else r
-      let r2 := if r1.sigErr.isNone then { r1 with sigErr := some err } else r1
-      (setResp s1 r2, .ok)
+      (modAux s1 id fun a =>
+        let a1 := if err == .network then { a with netErr := true } else a
+        if a1.sigErr.isNone then { a1 with sigErr := some err } else a1, .ok)
 
 def pauseRequest (s : State) (id : Id) : State × ApiRes :=
   match lookup s id with
@@ -532,7 +555,7 @@ def pauseRequest (s : State) (id : Id) : State × ApiRes :=
   | some r =>
     if r.state == .completing then (s, .notFound)
     else if r.state == .paused then (s, .err)
-    else (setResp s { r with sigPause := true }, .ok)
+    else (modAux s id fun a => { a with sigPause := true }, .ok)
 
 /-- updateRequest; result and whether the manager parked -/
 def updateRequest (s : State) (id : Id) (ext : Bool) : State × ApiRes × Bool :=
@@ -555,8 +578,8 @@ def startTask (s : State) (w : Nat) : State :=
     | some r =>
       if r.state == .completing then setPhase (taskDone s wk.peer wk.id) w .done
       else
-        let s1 := if r.started then s else emit s (.proc r.id)
-        setPhase (setResp s1 { r with started := true, state := .running }) w .started
+        let s1 := if r.aux.started then s else emit s (.proc r.id)
+        setPhase (setState (modAux s1 r.id fun a => { a with started := true }) r.id .running) w .started
 
 /-- finishTask -/
 def finishTask (s : State) (w : Nat) (err : Option WErr) : State :=
@@ -567,10 +590,10 @@ def finishTask (s : State) (w : Nat) (err : Option WErr) : State :=
     match lookup s1 wk.id with
     | none => s1
     | some r =>
-      if err == some .paused then setResp s1 { r with state := .paused }
+      if err == some .paused then setState s1 r.id .paused
       else if err == some .ctxCancel then terminate (emit s1 (.canc r.id)) r.id
-      else if err == some .network || r.netErr then terminate s1 r.id
-      else setResp s1 { r with state := .completing }
+      else if err == some .network || r.aux.netErr then terminate s1 r.id
+      else setState s1 r.id .completing
 
 def getUpdates (s : State) (w : Nat) : State :=
   match workerOf s w with
@@ -580,18 +603,33 @@ def getUpdates (s : State) (w : Nat) : State :=
     | .waitUpdates ops present =>
       match lookup s wk.id with
       | none => setPhase s w (.gotUpdates [] ops present)
-      | some r => setPhase (setResp s { r with updates := [] }) w (.gotUpdates r.updates ops present)
+      | some r => setPhase (modAux s r.id fun a => { a with updates := [] }) w (.gotUpdates r.aux.updates ops present)
     | _ => s
 
 def clearPubWait (s : State) (p : Peer) : State :=
   let q := getMQ s p
   setMQ s { q with pubWait := false }
 
+def ReqMsg.id : ReqMsg → Id
+  | .new id _ => id
+  | .cancel id => id
+  | .update id _ => id
+
+/-- processRequests: a peer can only address the responses that are being served to it
+    (/repo 7d665e5) -/
+def foreign (s : State) (p : Peer) (id : Id) : Bool :=
+  match lookup s id with
+  | some r => r.peer != p
+  | none => false
+
+def processRequest (s : State) (p : Peer) : ReqMsg → State
+  | .new id cfg => newRequest s p id cfg
+  | .cancel id => (abortRequest s id .ctxCancel).1
+  | .update id plan => processUpdate s id plan
+
 /-- one mailbox message -/
 def handle (s : State) : Msg → State
-  | .processRequests p (.new id cfg) => newRequest s p id cfg
-  | .processRequests _ (.cancel id) => (abortRequest s id .ctxCancel).1
-  | .processRequests _ (.update id plan) => processUpdate s id plan
+  | .processRequests p r => if foreign s p r.id then s else processRequest s p r
   | .api (.pause id) => let (s1, r) := pauseRequest s id; emit s1 (.apiRes (.pause id) r)
   | .api (.unpause id ext) =>
     let (s1, r, parked) := unpauseRequest s id ext
@@ -617,13 +655,13 @@ def resumeMgr (s : State) (pk : MgrPark) : State :=
 
 -- ------------------------------------------------------------------ worker (query executor)
 def finalStatus (r : Option Resp) : Option WErr → Nat
-  | none => if (r.map (·.missing)).getD false then stCompletedPartial else stFull
+  | none => if (r.map (·.aux.missing)).getD false then stCompletedPartial else stFull
   | some .firstBlock => stNotFound
   | some .cancelCmd => stCancelled
   | some _ => stFailedUnknown
 
 def sendFinish (s : State) (w : Nat) (err : Option WErr) : State :=
-  setPhase { s with mailbox := s.mailbox ++ [.finishTask w err] } w .waitFinish
+  setPhase (sendMsg s (.finishTask w err)) w .waitFinish
 
 /-- executeQuery after runTraversal returned `err` -/
 def executeQuery (s : State) (w : Nat) (wk : Worker) (err : Option WErr) : State :=
@@ -639,8 +677,8 @@ def loopTop (s : State) (w : Nat) (wk : Worker) : State :=
   match lookup s wk.id with
   | none => sendFinish s w (some .ctxCancel)
   | some r =>
-    if r.ended || r.pos ≥ r.cfg.n then
-      executeQuery s w wk (if r.ended && r.pos ≤ 1 then some .firstBlock else none)
+    if r.aux.ended || r.aux.pos ≥ r.cfg.n then
+      executeQuery s w wk (if r.aux.ended && r.aux.pos ≤ 1 then some .firstBlock else none)
     else setPhase s w .atLoader
 
 /-- after the transaction of a block -/
@@ -663,12 +701,12 @@ def blockPart (s : State) (w : Nat) (wk : Worker) (ops : List TxOp) (cfu : Optio
   match lookup s wk.id with
   | none => sendFinish s w (some .ctxCancel)
   | some r =>
-    let size := if r.pos ≥ r.cfg.n then s.leafLen else s.innerLen
+    let size := if r.aux.pos ≥ r.cfg.n then s.leafLen else s.innerLen
     let ops1 := ops ++ [TxOp.block size present]
-    if !present then runTx (setResp s { r with missing := true }) w wk ops1 (.afterBlock cfu present)
+    if !present then runTx (modAux s r.id fun a => { a with missing := true }) w wk ops1 (.afterBlock cfu present)
     else
-      let plan := (r.cfg.bh[r.hooked]?).getD .ok
-      let s2 := setResp s { r with hooked := r.hooked + 1 }
+      let plan := (r.cfg.bh[r.aux.hooked]?).getD .ok
+      let s2 := modAux s r.id fun a => { a with hooked := a.hooked + 1 }
       match plan with
       | .ok => runTx s2 w wk ops1 (.afterBlock cfu present)
       | .ext => runTx s2 w wk (ops1 ++ [.ext]) (.afterBlock cfu present)
@@ -681,17 +719,17 @@ def checkForUpdates (s : State) (w : Nat) (wk : Worker) (ops : List TxOp) (prese
   match lookup s wk.id with
   | none => sendFinish s w (some .ctxCancel)
   | some r =>
-    let cands : List Nat := (if r.sigPause then [0] else []) ++ (if r.sigErr.isSome then [1] else []) ++
-                            (if r.sigUpdate then [2] else [])
+    let cands : List Nat := (if r.aux.sigPause then [0] else []) ++ (if r.aux.sigErr.isSome then [1] else []) ++
+                            (if r.aux.sigUpdate then [2] else [])
     match cands[pick % (max cands.length 1)]? with
     | none => blockPart s w wk ops none present
     | some 0 =>
-      blockPart (setResp s { r with sigPause := false }) w wk (ops ++ [.status stPaused]) (some .paused) present
+      blockPart (modAux s r.id fun a => { a with sigPause := false }) w wk (ops ++ [.status stPaused]) (some .paused) present
     | some 1 =>
-      let e := (r.sigErr.map Sig.toWErr).getD .other
-      runTx (setResp s { r with sigErr := none }) w wk ops (.afterBlock (some e) present)
+      let e := (r.aux.sigErr.map Sig.toWErr).getD .other
+      runTx (modAux s r.id fun a => { a with sigErr := none }) w wk ops (.afterBlock (some e) present)
     | some _ =>
-      setPhase { (setResp s { r with sigUpdate := false }) with mailbox := s.mailbox ++ [.getUpdates w] } w
+      setPhase (sendMsg (modAux s r.id fun a => { a with sigUpdate := false }) (.getUpdates w)) w
         (.waitUpdates ops present)
 
 /-- process the updates returned by GetUpdates, then loop in checkForUpdates -/
@@ -714,8 +752,8 @@ def wstep (s : State) (w : Nat) (pick : Nat) : Option State :=
       match lookup s wk.id with
       | none => some (sendFinish s w (some .ctxCancel))
       | some r =>
-        let present := r.cfg.miss != some r.pos
-        some (checkForUpdates (setResp s { r with pos := r.pos + 1, ended := !present }) w wk [] present pick)
+        let present := r.cfg.miss != some r.aux.pos
+        some (checkForUpdates (modAux s r.id fun a => { a with pos := a.pos + 1, ended := !present }) w wk [] present pick)
     | .gotUpdates ups ops present => some (applyUpdates s w wk ups ops present pick)
     | .inHook ops cfu => some (runTx s w wk ops (.afterBlock cfu true))
     | .blockedTx ops k true =>
@@ -738,6 +776,18 @@ def errSteps (e : Entry) : List PStep :=
 def scrubBuilder (b : Builder) (ids : List Id) : Builder :=
   { b with entries := b.entries.filter fun e => !ids.contains e.id }
 
+/-- scrubResponses on the queued builder: the scrubbed builder (dropped when empty) and the bytes freed -/
+def scrubNext (nb : Option Builder) (ids : List Id) : Option Builder × Nat :=
+  match nb with
+  | none => (none, 0)
+  | some b =>
+    let b' := scrubBuilder b ids
+    (if b'.empty then none else some b', b.size - b'.size)
+
+/-- scrubResponseStreams: close the response streams of a failed message -/
+def closeStreams (s : State) (ids : List Id) : State :=
+  { s with closed := s.closed ++ ids.filter (fun i => !s.closed.contains i) }
+
 /-- the message in flight to `p` is resolved: publishSent / publishError -/
 def netResolve (s : State) (p : Peer) (ok : Bool) : Option State :=
   let q := getMQ s p
@@ -751,14 +801,10 @@ def netResolve (s : State) (p : Peer) (ok : Bool) : Option State :=
     else
       let ids := subs.map (·.id)
       -- scrubResponseStreams: close the streams, scrub the queued builders, release what was freed
-      let s1 := { s with closed := s.closed ++ ids.filter (fun i => !s.closed.contains i) }
-      let (next', freed) := match q.next with
-        | none => (none, 0)
-        | some nb =>
-          let nb' := scrubBuilder nb ids
-          (if nb'.empty then none else some nb', nb.size - nb'.size)
-      let s2 := setMQ s1 { q with inflight := none, next := next', pubQ := q.pubQ ++ (subs.map errSteps).flatten }
-      let s3 := if freed > 0 then release s2 p freed else s2
+      let sc := scrubNext q.next ids
+      let s2 := setMQ (closeStreams s ids)
+        { q with inflight := none, next := sc.1, pubQ := q.pubQ ++ (subs.map errSteps).flatten }
+      let s3 := if sc.2 > 0 then release s2 p sc.2 else s2
       some (release s3 p b.size)
 
 /-- the queue goroutine takes the accumulated builder -/
@@ -787,9 +833,9 @@ def pubStep (s : State) (p : Peer) : Option State :=
       | .emitDone id code => some (emit s1 (.done id code))
       | .emitNerr id => some (emit s1 (.nerr id))
       | .callClose id =>
-        some { (setMQ s { q with pubQ := rest, pubWait := true }) with mailbox := s.mailbox ++ [.closeNetErr id p] }
+        some (sendMsg (setMQ s { q with pubQ := rest, pubWait := true }) (.closeNetErr id p))
       | .callTerminate id =>
-        some { (setMQ s { q with pubQ := rest, pubWait := true }) with mailbox := s.mailbox ++ [.terminate id p] }
+        some (sendMsg (setMQ s { q with pubQ := rest, pubWait := true }) (.terminate id p))
 
 -- ------------------------------------------------------------------ the transition system
 inductive Action
@@ -811,7 +857,7 @@ def popTask (s : State) (p : Peer) (id : Id) : Option State :=
   if q.freeze == 0 && q.pending.any (·.1 == id) then
     let s1 := setQ s { q with pending := q.pending.filter (·.1 != id), active := q.active ++ [id] }
     let w := s1.workers.length
-    some { s1 with workers := s1.workers ++ [{ peer := p, id, phase := .waitStart }], mailbox := s1.mailbox ++ [.startTask w] }
+    some (sendMsg { s1 with workers := s1.workers ++ [{ peer := p, id, phase := .waitStart }] } (.startTask w))
   else none
 
 def mgrStep (s : State) : Option State :=
@@ -820,11 +866,13 @@ def mgrStep (s : State) : Option State :=
   | none =>
     match s.mailbox with
     | [] => none
-    | m :: rest => some (handle { s with mailbox := rest } m)
+    | m :: rest => some (handle { s with mailbox := rest, handled := s.handled + 1 } m)
 
 def step (s : State) : Action → Option State
-  | .recv p r => some { s with mailbox := s.mailbox ++ [.processRequests p r] }
-  | .api c => some { s with mailbox := s.mailbox ++ [.api c] }
+  | .recv p r =>
+    some (sendMsg { s with seenIds := match r with | .new id _ => s.seenIds ++ [id] | _ => s.seenIds }
+                  (.processRequests p r))
+  | .api c => some (sendMsg s (.api c))
   | .mgr => mgrStep s
   | .pop p id => popTask s p id
   | .reap p => reap s p
